@@ -2,11 +2,16 @@
     (frames are never freed: closures may capture them); a scope is a frame id.
     Definitions only. *)
 From Lisp Require Export Value Core.
+From Coq Require Export FMapPositive.
 
-Record frame := mkFrame { binds : list (str * val); outer : option nat }.
+Record frame := mkFrame { binds : list (str * val); outer : option positive }.
 
+(** The heap is a finite map from frame ids to frames (a positive trie: O(log n) access, so
+    that the extracted model runs long loops); ids are allocated consecutively from 0. *)
 Record state := mkState {
-  heap : list frame;          (* env.Env objects, id = index *)
+  heap : PositiveMap.t frame; (* env.Env objects *)
+  next_env : positive;        (* next free frame id (ids are allocated consecutively from 1) *)
+  nframes : nat;              (* number of frames allocated so far (fuel for walking outer chains) *)
   atoms : list val;           (* concurrent.Atom objects, id = index *)
   trace : list val;           (* arguments of the harness builtin trace!, most recent first *)
 }.
@@ -26,7 +31,9 @@ Definition bindM {A B} (m : M A) (f : A -> M B) : M B :=
 Notation "'let+' x ':=' c1 'in' c2" := (bindM c1 (fun x => c2))
   (at level 61, x pattern, c1 at next level, right associativity).
 
-Definition get_frame (st : state) (id : nat) : option frame := nth_opt (heap st) id.
+Definition get_frame (st : state) (id : positive) : option frame := PositiveMap.find id (heap st).
+Definition put_frame (st : state) (id : positive) (f : frame) : state :=
+  mkState (PositiveMap.add id f (heap st)) (next_env st) (nframes st) (atoms st) (trace st).
 
 Fixpoint update_nth {A} (l : list A) (n : nat) (f : A -> A) : list A :=
   match l, n with
@@ -55,7 +62,7 @@ Definition new_lisp_error (err : val) (p : opos) : val :=
 Definition lisp_goerr (msg : str) (p : opos) : val := VLispErr (VGoErr msg) p.
 
 (** Env.Find / Env.Get: walk the outer chain.  Fuel = number of frames (outer ids are older). *)
-Fixpoint env_find_n (n : nat) (st : state) (env : nat) (key : str) : option nat :=
+Fixpoint env_find_n (n : nat) (st : state) (env : positive) (key : str) : option positive :=
   match n with
   | O => None
   | S n' =>
@@ -68,13 +75,13 @@ Fixpoint env_find_n (n : nat) (st : state) (env : nat) (key : str) : option nat 
           end
       end
   end.
-Definition env_find (st : state) (env : nat) (key : str) : option nat :=
-  env_find_n (S (length (heap st))) st env key.
+Definition env_find (st : state) (env : positive) (key : str) : option positive :=
+  env_find_n (S (nframes st)) st env key.
 
 Definition not_found (key : str) (p : opos) : val :=
   lisp_goerr (s_ "symbol '" ++ key ++ s_ "' not found") p.
 
-Fixpoint env_get_n (n : nat) (st : state) (env : nat) (key : str) (p : opos) : outcome val :=
+Fixpoint env_get_n (n : nat) (st : state) (env : positive) (key : str) (p : opos) : outcome val :=
   match n with
   | O => Panic (s_ "env chain longer than heap")
   | S n' =>
@@ -90,17 +97,20 @@ Fixpoint env_get_n (n : nat) (st : state) (env : nat) (key : str) (p : opos) : o
           end
       end
   end.
-Definition env_get (st : state) (env : nat) (key : str) (p : opos) : outcome val :=
-  env_get_n (S (length (heap st))) st env key p.
+Definition env_get (st : state) (env : positive) (key : str) (p : opos) : outcome val :=
+  env_get_n (S (nframes st)) st env key p.
 
-Definition env_set (env : nat) (key : str) (v : val) : M val :=
+Definition env_set (env : positive) (key : str) (v : val) : M val :=
   fun st =>
-    (Ok v, mkState (update_nth (heap st) env (fun f => mkFrame (aset key v (binds f)) (outer f)))
-                   (atoms st) (trace st)).
+    match get_frame st env with
+    | Some f => (Ok v, put_frame st env (mkFrame (aset key v (binds f)) (outer f)))
+    | None => (Panic (s_ "nil env"), st)
+    end.
 
-Definition new_env (outer_id : option nat) : M nat :=
-  fun st => (Ok (length (heap st)),
-             mkState (heap st ++ [mkFrame [] outer_id]) (atoms st) (trace st)).
+Definition new_env (outer_id : option positive) : M positive :=
+  fun st => (Ok (next_env st),
+             mkState (PositiveMap.add (next_env st) (mkFrame [] outer_id) (heap st))
+                     (Pos.succ (next_env st)) (S (nframes st)) (atoms st) (trace st)).
 
 (** env._newSubordinateEnvWithBinds (after fix: non-symbol binds and a dangling & are errors).
     The new scope is allocated first (as in Go) even when binding then fails. *)
@@ -129,7 +139,7 @@ Fixpoint bind_params (bs : list val) (nb : nat) (exprs : list val) (ne : nat) (i
       end
   end.
 
-Definition new_env_binds (outer_id : nat) (binds_mt exprs_mt : val) : M nat :=
+Definition new_env_binds (outer_id : positive) (binds_mt exprs_mt : val) : M positive :=
   let+ id := new_env (Some outer_id) in
   match binds_mt, exprs_mt with
   | VNil, _ | _, VNil => ret id
@@ -137,19 +147,19 @@ Definition new_env_binds (outer_id : nat) (binds_mt exprs_mt : val) : M nat :=
       let+ bs := lift (get_slice binds_mt) in
       let+ es := lift (get_slice exprs_mt) in
       let+ acc := lift (bind_params bs (length bs) es (length es) 0 []) in
-      fun st => (Ok id, mkState (update_nth (heap st) id (fun f => mkFrame acc (outer f))) (atoms st) (trace st))
+      fun st => (Ok id, put_frame st id (mkFrame acc (Some outer_id)))
   end.
 
 (** atoms *)
 Definition new_atom (v : val) : M val :=
-  fun st => (Ok (VAtom (length (atoms st))), mkState (heap st) (atoms st ++ [v]) (trace st)).
+  fun st => (Ok (VAtom (length (atoms st))), mkState (heap st) (next_env st) (nframes st) (atoms st ++ [v]) (trace st)).
 Definition atom_get (id : nat) : M val :=
   fun st => match nth_opt (atoms st) id with
             | Some v => (Ok v, st)
             | None => (Panic (s_ "nil atom"), st)
             end.
 Definition atom_set (id : nat) (v : val) : M unit :=
-  fun st => (Ok tt, mkState (heap st) (update_nth (atoms st) id (fun _ => v)) (trace st)).
+  fun st => (Ok tt, mkState (heap st) (next_env st) (nframes st) (update_nth (atoms st) id (fun _ => v)) (trace st)).
 
 Definition trace_push (v : val) : M unit :=
-  fun st => (Ok tt, mkState (heap st) (atoms st) (v :: trace st)).
+  fun st => (Ok tt, mkState (heap st) (next_env st) (nframes st) (atoms st) (v :: trace st)).
